@@ -14,7 +14,11 @@ keep, drop = [], []
 for line in open(path):
     if line.startswith("known: "):
         sig = line[len("known: "):].partition(" :: ")[0].partition(" sig=")[2]
-        (keep if sig in seen else drop).append(line)
+        # signatures that only a thorough-tier stage can observe are never pruned on the basis of a quick run
+        if sig.startswith("profile=chk:") or "-report:" in sig:
+            keep.append(line)
+        else:
+            (keep if sig in seen else drop).append(line)
     else:
         keep.append(line)
 for l in drop:
